@@ -26,6 +26,9 @@ type c13Case struct {
 	Status   int         `json:"status,omitempty"`
 	Seed     int64       `json:"seed,omitempty"`
 	Redirect string      `json:"redirect,omitempty"`
+	Then     string      `json:"then,omitempty"`
+	N        int         `json:"n,omitempty"`
+	M        int         `json:"m,omitempty"`
 	Info     bool        `json:"info,omitempty"`
 }
 
@@ -38,6 +41,8 @@ type c13Result struct {
 	ParseErr   bool     `json:"parse_err"`
 	Connected  bool     `json:"connected"`
 	Redirects  int      `json:"redirects"`
+	Opens      int      `json:"opens"`
+	Later      []string `json:"later"`
 	Reached    bool     `json:"reached"`
 	Violations []string `json:"violations"`
 	Note       string   `json:"note"`
@@ -173,7 +178,7 @@ func c13NonShim(rng *rand.Rand, n int, seed int64) []c13Case {
 // C13 — the websocket shim only ever connects to the configured backend.
 func C13(r *core.Run) {
 	r.Level = "exploration"
-	r.SetRule("websockets.Proxy driven in-process (race-built worker, agent's GODEBUG defaults, real gorilla backend, one case at a time per process); observation: every (network,address) handed to websocket.DefaultDialer.NetDialContext, plus request URI and Host the backend's websocket server received. Open bodies: an enumerated corpus of URL syntax classes (absolute ws/wss/http/other, scheme-relative, path-only, opaque, empty, userinfo, IP literals, ports, percent-encoded hosts, back-slashes, odd slashes, fragments, CR/LF, very long, unicode hosts, whitespace, query tricks), seeded mutations (splice, insert special, delete, duplicate) and random byte / ASCII strings, each with rewriteWebsocketHost on and off; plus a backend that answers the handshake with a redirect: statuses {301,302,307,308} x Location {absolute foreign ws, absolute foreign http, scheme-relative foreign, path-only, absolute to the backend, request path plus a trailing slash} x 8 URL shapes incl. paths beginning with //host. Pass-through: requests for ordinary paths and near misses of the shim prefix (two shim paths), random methods/headers/bodies/scripted responses; class = URL syntax class | near-miss class")
+	r.SetRule("websockets.Proxy driven in-process (race-built worker, agent's GODEBUG defaults, real gorilla backend, one case at a time per process); observation: every (network,address) handed to websocket.DefaultDialer.NetDialContext, plus request URI and Host the backend's websocket server received. Open bodies: an enumerated corpus of URL syntax classes (absolute ws/wss/http/other, scheme-relative, path-only, opaque, empty, userinfo, IP literals, ports, percent-encoded hosts, back-slashes, odd slashes, fragments, CR/LF, very long, unicode hosts, whitespace, query tricks), seeded mutations (splice, insert special, delete, duplicate) and random byte / ASCII strings, each with rewriteWebsocketHost on and off; plus whole-session histories (open with an absolute / scheme-relative / IP-literal / odd-port URL, the backend drops the websocket abruptly or gracefully, the client goes on with data, poll, data, close, data - the dial observer stays on for all of it); plus bursts of 16 goroutines opening concurrently on one handler, every body naming its own foreign host, port, path and query (dial addresses and per-connection request URI checked; race detector on); plus a backend that answers the handshake with a redirect: statuses {301,302,307,308} x Location {absolute foreign ws, absolute foreign http, scheme-relative foreign, path-only, absolute to the backend, request path plus a trailing slash} x 8 URL shapes incl. paths beginning with //host. Pass-through: requests for ordinary paths and near misses of the shim prefix (two shim paths), random methods/headers/bodies/scripted responses; class = URL syntax class | near-miss class")
 	r.Assume("expected request URI = net/url's escaped path (\"/\" prefixed when missing) + \"?\" + raw query of the supplied URL; how a percent-encoded spelling of the prefix (/shim%2Fopen, /%73him/open) is routed is left to ServeMux and only recorded; paths ServeMux redirects by itself are not generated; the syscall-level (strace) sample of DESIGN.md is not run: the dial hook sees every address before the socket is created")
 	bin := r.MustBuild(r.BuildWorker())
 	godebug := "GODEBUG=" + shimGodebug(r)
@@ -224,6 +229,26 @@ func C13(r *core.Run) {
 			}
 		}
 	}
+	// whole-session histories: open with an absolute / scheme-relative / IP-literal URL, the backend drops
+	// the websocket, the client goes on using the session (data, poll, data, close, data)
+	nThen := 0
+	for _, e := range corpus {
+		switch e.class {
+		case "absolute-ws", "absolute-wss", "absolute-http", "scheme-relative", "ip-literal", "port", "unicode-host":
+			for _, then := range []string{"drop-abrupt", "drop-graceful"} {
+				c := c13Case{ID: fmt.Sprintf("t%d-%d", r.Seed, nThen), Kind: "url", Class: "then-" + then + ":" + e.class, B64: base64.StdEncoding.EncodeToString([]byte(e.url)),
+					Rewrite: nThen%4 >= 2, Host: "client.example", Then: then}
+				cases = append(cases, c)
+				bodyOf[c.ID] = e.url
+				nThen++
+			}
+		}
+	}
+	// concurrent opens, every body naming its own foreign host: one burst per worker process (thorough: 6)
+	nBurst := r.Pick(8, 48)
+	for i := 0; i < nBurst; i++ {
+		cases = append(cases, c13Case{ID: fmt.Sprintf("burst%d-%d", r.Seed, i), Kind: "burst", Class: "concurrent-opens", Host: "client.example", Rewrite: i%2 == 1, N: 16, M: r.Pick(25, 60)})
+	}
 	cases = append(cases, c13NonShim(rng, r.Pick(100, 3000), r.Seed)...)
 	if r.OnlyCase >= 0 && r.OnlyCase < len(cases) {
 		cases = cases[r.OnlyCase : r.OnlyCase+1]
@@ -256,8 +281,18 @@ func C13(r *core.Run) {
 			r.Inconclusive(res.ID + ": " + res.Note)
 			continue
 		}
-		if c.Kind == "url" {
+		if c.Kind == "burst" {
+			r.Cases(fmt.Sprintf("concurrent-opens:%dx%d|rewrite=%v", c.N, c.M, c.Rewrite), res.Opens)
+			r.Add("concurrent_opens", res.Opens)
+			for _, d := range res.Dials {
+				dialAddrs[d]++
+			}
+		} else if c.Kind == "url" {
 			outcome := fmt.Sprintf("%d", res.Status)
+			if c.Then != "" && res.Connected {
+				outcome += "|then " + strings.Join(res.Later, ",")
+				r.Add("sessions_used_after_the_backend_dropped_them", 1)
+			}
 			if res.Connected {
 				outcome += "+connected"
 				connected++
@@ -324,7 +359,7 @@ func C13(r *core.Run) {
 	r.Set("hook_hits", hits)
 	r.Set("strace_sample", "skipped")
 	r.JudgeRaces(core.ParseRaceLogs(filepath.Join(r.WorkDir, "race-")))
-	minCases := r.Pick(480, 32000) + nRedir - 10
+	minCases := r.Pick(480, 32000) + nRedir + nThen - 10
 	if r.OnlyCase >= 0 {
 		minCases = 1
 	}
